@@ -186,7 +186,7 @@ func runProperty(p *Prog, id, tier string, cfg SolverCfg, verifDir, outDir strin
 		}
 		// loops declared in the contract must exist
 		for n := range c.Loops {
-			if n >= len(vc.topFrame.loops) {
+			if n >= len(vc.topFrame.loops) && !vc.adoptedHit[n] {
 				viols = append(viols, violation{Obligation: fmt.Sprintf("%s#loop%d", vc.funcName(), n), Func: vc.funcName(), Class: "detached", Desc: fmt.Sprintf("contract names loop %d but the function has %d loops", n, len(vc.topFrame.loops)), Status: "detached"})
 			}
 		}
